@@ -855,8 +855,9 @@ func gamma_p_derivative_imp(a, x float64) float64 {
     // overflow:
     return math.Inf(1)
    }
-   if f1 == 0.0 {
-     // Underflow in calculation, use logs instead:
+   if f1 < 2.2250738585072014e-308 {
+     // Underflow in calculation (complete or into the subnormal range, where
+     // f1 has lost most of its digits), use logs instead:
      v, _ := math.Lgamma(a)
      f1 = a*math.Log(x) - x - v - math.Log(x)
      f1 = math.Exp(f1)
